@@ -497,7 +497,7 @@ func runSort(r *driver.Run) {
 	default:
 		n = []int{0, 1, 2, 11, 12, 13, 40, 41, 50, 51, 4096}[t.Draw(11)]
 	}
-	shape := t.Draw(10)
+	shape := t.Draw(11)
 	xs := make([]int, n)
 	vr := []int{2, 5, 1000, 1 << 40}[t.Draw(4)]
 	for i := range xs {
@@ -527,6 +527,20 @@ func runSort(r *driver.Run) {
 		default:
 			xs[i] = 7
 		}
+	}
+	if shape == 10 {
+		// nearly sorted: ascending with one to three elements out of place, mostly near the front
+		for i := range xs {
+			xs[i] = 3 * i
+		}
+		for k := 0; k < 1+t.Draw(3) && n > 0; k++ {
+			pos := t.Draw(n)
+			if t.Chance(2, 3) {
+				pos = t.Draw(min(n, 6))
+			}
+			xs[pos] = t.Draw(3*n+7) - 5
+		}
+		r.Probe("sort-nearly-sorted")
 	}
 	if shape == 9 {
 		// values at both ends of the int range (differences overflow)
